@@ -76,7 +76,8 @@ class C09(object):
                    'REG/REG2/OPENG are not claimed by the property']
     required_counters = ('SIM.judged', 'SIMEX1.judged', 'PC.judged', 'iterative.judged', 'exact_equalities.judged',
                          'offgrid.judged', 'nonzero_initial_stocks.judged', 'PAIR.judged', 'book_exogenous_overwritten.cases',
-                         'parameters_as_exogenous_series.cases')
+                         'parameters_as_exogenous_series.cases', 'solver_object_shared_with_an_earlier_model.cases',
+                         'PC.initial_bills_explicitly_zero.cases')
 
     def n_cases(self, tier):
         return 60 if tier == 'quick' else 6000
@@ -105,7 +106,11 @@ class C09(object):
                 'book_first': rng.random() < 0.4,
                 # propensities, tax rate (and PC's lambdas) supplied as constant exogenous series instead of attributes,
                 # as the bundled scripts ex20190324_consumption_propensity / ex20190412_oscillate_wildly do
-                'params_exogenous': (idx // 7) % 2 == 1}
+                'params_exogenous': (idx // 7) % 2 == 1,
+                # one solver object shared by two models (a parameter sweep that re-uses its configured solver)
+                'shared_solver': (idx // 7) % 3 == 2,
+                # PC: all initial wealth held as cash - the initial bill holding is an explicit 0.0
+                'B0_zero': which == 'PC' and (idx // 7) % 4 == 1}
         if which == 'PAIR':
             case['T'] = min(T, 10)
             case['members'] = []
@@ -123,7 +128,7 @@ class C09(object):
         return case
 
     # ------------------------------------------------------------------------------------------
-    def configure(self, b, mod, which, p, G, r, V0, YD0, T, prefix='', params_exogenous=False):
+    def configure(self, b, mod, which, p, G, r, V0, YD0, T, prefix='', params_exogenous=False, B0_zero=False):
         """Set parameters/paths/initial stocks of one book economy through the public API; returns
         (closed form, {symbol: series name})."""
         c = b.Country
@@ -147,6 +152,8 @@ class C09(object):
                     hh.SetEquationRightHandSide(lv, repr(p[key]))
             B0 = V0 * (p['l0'] + p['l1'] * r[0]) - p['l2'] * YD0
             B0 = float(min(max(B0, 0.1 * V0), 0.9 * V0))
+            if B0_zero:
+                B0 = 0.0
             for role, var, val in (('HH', 'F', V0), ('HH', 'DEM_DEP', B0), ('HH', 'DEM_MON', V0 - B0),
                                    ('TRE', 'F', -V0), ('TRE', 'SUP_DEP', V0), ('CB', 'DEM_DEP', V0 - B0),
                                    ('HH', 'AfterTax', YD0)):
@@ -232,14 +239,36 @@ class C09(object):
         rec = monitors.Recorder()
         p, T = case['p'], case['T']
         which = case['kind']
+        shared = None
+        if case.get('shared_solver'):
+            # the solver first does another job: the same book model with other parameters and paths
+            from sfc_models.equation_solver import EquationSolver
+            shared = EquationSolver()
+            b0 = ambient.book_builders()[which](country_code='C1', use_book_exogenous=False)
+            mod0 = b0.build_model()
+            mod0.MaxTime = max(2, T // 2)
+            mod0.EquationSolver = shared
+            shared.MaxIterations = 5000
+            p0 = dict(p, a1=min(0.9, p['a1'] * 0.8 + 0.1), th=p['th'] * 0.5 + 0.05)
+            self.configure(b0, mod0, which, p0, [g_ + 3.0 for g_ in case['G']], case['r'], case['V0'], case['YD0'], mod0.MaxTime)
+            try:
+                with contextlib.redirect_stdout(io.StringIO()):
+                    mod0.main()
+            except Exception:
+                pass
+            rec.count('solver_object_shared_with_an_earlier_model.cases')
         b = ambient.book_builders()[which](country_code='C1', use_book_exogenous=bool(case.get('book_first')))
         mod = b.build_model()
+        if shared is not None:
+            mod.EquationSolver = shared
         mod.MaxTime = T
         mod.EquationSolver.MaxIterations = 5000
         mod.EquationSolver.ParameterErrorTolerance = 1e-10
         V0 = case['V0']
         cf, names = self.configure(b, mod, which, p, case['G'], case['r'], V0, case['YD0'], T,
-                                   params_exogenous=bool(case.get('params_exogenous')))
+                                   params_exogenous=bool(case.get('params_exogenous')), B0_zero=bool(case.get('B0_zero')))
+        if case.get('B0_zero'):
+            rec.count('PC.initial_bills_explicitly_zero.cases')
         if case.get('params_exogenous'):
             rec.count('parameters_as_exogenous_series.cases')
         if case.get('book_first'):
